@@ -172,11 +172,15 @@ def work(job):
     direct_orders = topo_orders(g, None) if len(g.nodes) <= 4 else orders
     if len(g.nodes) < 2 or (len(g.nodes) >= 5 and tier() == "quick"):
         direct_orders = []  # (five-node graphs: thorough tier only)
-    if tier() == "quick" and len(g.nodes) == 4 and len(direct_orders) > 3:
-        direct_orders = direct_orders[seed() % 3 :: 3]  # every third order of a 4-node graph in the quick tier
+    if len(g.nodes) == 4 and len(direct_orders) > 3:
+        k = 3 if tier() == "quick" else 2
+        direct_orders = direct_orders[seed() % k :: k]  # every third (quick) / second (thorough) order of a 4-node graph
     for topo in direct_orders:
         chain = chain_product(topo)
-        anc_sets = {frozenset(g.nodes)} | {frozenset(g.ancestors(S)) for k in ((1,) if tier() == "quick" else (1, 2)) for S in itt.combinations(g.nodes, k)}
+        sizes = (1,) if tier() == "quick" else (1, 2)
+        if len(g.nodes) >= 5:
+            sizes = ()  # five-node graphs (thorough only): A = V
+        anc_sets = {frozenset(g.nodes)} | {frozenset(g.ancestors(S)) for k in sizes for S in itt.combinations(g.nodes, k)}
         for A in sorted(anc_sets, key=sorted):
             rest = [n for n in topo if n not in A]
             qA = sum_over(chain, rest) if rest else chain
@@ -341,7 +345,7 @@ def run() -> int:
     rep.bounds = {
         "graphs": "both tiers: 48 (quick) / 400 (thorough) pseudo-random five-node single-district graphs (seeded by VERIF_SEED); a seed-chosen slice (quick 1/16, thorough 1/3) of 268 five-node graphs with nested districts (the graphs of vf/data/id_deep5.json), one topological order; quick: ADMGs <=3 nodes (two labellings, every topological order), curated 4-node graphs (2 orders), 1/4 of the 4-node classes (2 orders); thorough: all ADMGs <=4 nodes (two labellings, 2 orders), curated list",
         "inputs": "every district T; Q[T] = the library's own Lemma-1 product from P(V) and, when every node outside T is an unconfounded root, also the plain conditional P(T | V - T); each form also population-tagged (PP[pi*]), since tian_id.py has separate branches for it (both tiers: every 4-node class with a 3-node district and such a root); every non-empty C subset of T inducing a single district; for every proper ancestral set A = An(C) of G_T: Q[A] by Lemma 3 (compute_ancestral_set_q_value) and Q[D] for EVERY district D of G_A by compute_c_factor on that derived expression (Lemma 4)",
-        "lemma4_direct": "for every graph of the run, every topological order when it has <= 4 nodes (quick: every third order of a 4-node graph and |S| = 1; five-node graphs: thorough tier only, the orders above), every ancestral set A = V or An(S), |S| <= 2: Q[A] handed over as the raw chain-rule product of P(v_i | v_1..v_i-1), summed over V - A, and Q[D] requested for every district D of G_A (the Lemma-4 routine is selected because Q[A] is a product / sum)",
+        "lemma4_direct": "for every graph of the run, every topological order when it has <= 4 nodes (4-node graphs: every third order and |S| = 1 in the quick tier, every second order in the thorough tier; five-node graphs: A = V only, graphs: thorough tier only, the orders above), every ancestral set A = V or An(S), |S| <= 2: Q[A] handed over as the raw chain-rule product of P(v_i | v_1..v_i-1), summed over V - A, and Q[D] requested for every district D of G_A (the Lemma-4 routine is selected because Q[A] is a product / sum)",
         "models": "all positive binary SCMs, one binary latent per bidirected edge; all value assignments of all variables in one query",
         "per_query_timeout_ms": TIMEOUT_MS[t],
         "PYTHONHASHSEED": hashseed(),
@@ -385,6 +389,9 @@ def run() -> int:
                 rep.add_violation(Violation(PROP, [key], what, dict(base, kind="wrong", env=r["env"], params=r["params"], out_seen=r["out"])))
     if not rep.samples:
         rep.add_sample({"note": "no non-trivial IDENTIFY output in this run"})
+    from .. import history_runs
+
+    history_runs.run(rep, PROP)
     return rep.finish()
 
 
@@ -393,6 +400,10 @@ class _Done(Exception):
 
 
 def replay(payload: dict) -> int:
+    if payload.get("kind") == "history":
+        from .. import history_runs
+
+        return history_runs.replay(PROP, payload)
     g = GSpec.from_json(payload["graph"])
     topo, T, C = payload["topo"], set(payload["T"]), payload.get("C")
     print("graph", g.key(), "order", topo, "T", sorted(T), "C", C)
